@@ -776,6 +776,18 @@ class Skel:
             self.events_in(n, lines, ind)
             # a bare assignment `v = tagged` keeps the tag
             e = self.strip(n)
+            if e is not None and e.get('kind') in ('CompoundAssignOperator', 'UnaryOperator') and e.get('inner') and \
+                    (e.get('kind') == 'CompoundAssignOperator' or e.get('opcode') in ('++', '--')):
+                # `m += x`, `++m`, `m--` on a member with an @assign rule: the rule fires with an arbitrary value
+                l = self.strip(e['inner'][0])
+                if l is not None and l.get('kind') == 'MemberExpr':
+                    did = l.get('referencedMemberDecl')
+                    q = self.qname_of(did, l.get('name')) if did else l.get('name', '')
+                    base = self.targ(l['inner'][0]) if l.get('inner') else '0'
+                    for pat, macro in self.spec.assigns.items():
+                        if suffix_match(q, pat):
+                            lines.append(f'{ind}{macro}(nondet_bool(), {base});')
+                            self.used.setdefault('assigns', set()).add(pat)
             if e is not None and e.get('kind') in ('BinaryOperator', 'CXXOperatorCallExpr'):
                 ins = e.get('inner', [])
                 if e.get('kind') == 'BinaryOperator' and e.get('opcode') == '=' and len(ins) == 2:
